@@ -95,6 +95,12 @@ CHECKS = {
          "Histories up to depth 3 (quick) / 4 (thorough) over {apply a block with k new outputs (600, 1024 / 1, 600, 1023, 1025) and a spend selection (none, first/last of chunk 0, first of chunk 1, every other leaf of the oldest chunk, all of the last partial chunk, all of the oldest chunk, all of chunk 1) on the head or on any ancestor of the head (rewind across chunk boundaries and re-apply), a rolled-back unit, reopen}: after every step and after reopening, the committed bitmap root must equal an accumulator initialised from scratch over the reference unspent set and an independently hashed chunk MMR, and the accumulator's bit set must equal the reference unspent set. Output counts span up to 4 chunks.",
          "The seam replicates pipe::rewind_and_apply_fork minus the validations synthetic blocks cannot pass (Testnet limits so that 1000-output blocks can be read back). The 'tampered output_root is rejected' clause is exercised by C06 (late:output_root-flip probe at every state).",
          "DESIGN.md §4 C15"),
+ "C16": ("model_checking",
+         "bounded-exhaustive enumeration of prune/compaction states x segment heights x indices x every single corruption on the real PMMRBackend (segments); stateless exploration (replay DFS, memoised) of every arrival order of the segment multiset on a receiving Chain's Desegmenter with the sync loop interleaved, twin differential (end-to-end); archive path with file corruptions",
+         "c16",
+         "Segments: every assignment of five leaf histories (unspent, spent+compacted, compacted by a second compaction, spent uncompacted, spent after the archive point) to n <= 5 (quick) / 7 (thorough) leaves plus structured families up to 24 / 64 leaves on a real on-disk prunable backend; for heights 0..4 and every index Segment::from_pmmr must produce a segment that validate / validate_with accept against an independently hashed reference, and every single corruption of a part the root depends on (leaf data, positions, hashes, proof, identifier, omission of an unspent leaf, hidden leaves, wrong merge side) must be refused; bitmap segments likewise. End-to-end: source chains (no spends, spends before/after/both sides of the archive header, compacted before serving) served to a header-only receiver with small segment heights (hook H7); every arrival order of the pending honest segments with duplicates and the sync loop's own calls interleaved, every corrupted copy offered at every honest state: the final head, roots, unspent set and validate(false) equal a twin that processed every block, and a tainted history never finalises other roots. Archive path txhashset_read -> txhashset_write with per-file corruptions.",
+         "Nodes serve segment heights >= 7; a height-0 segment next to a spent sibling cannot be produced (counted, not judged). Follow-up exploration of accepted corrupted copies is limited (counted as not explored).",
+         "DESIGN.md §4 C16"),
  "C17": ("model_checking",
          "controlled-scheduler (CHESS-style) exploration of the real Chain with real OS threads: every schedule up to a preemption bound, lock state mirrored for deadlock detection",
          "c17",
